@@ -217,3 +217,86 @@ def fv(d, cond):
                     if repr(pos) in d:
                         return d[repr(pos)] if n == "Ne" else (not d[repr(pos)])
     return None
+
+
+def entails_ge0(facts, goal, unsigned=True):
+    """True when one of the branch facts alone implies `goal >= 0` over the integers: each ordering fact gives a linear form F >= 0
+    (a < b: b - a - 1, a <= b: b - a, x != 0 on an unsigned x: x - 1, and their negations); the goal follows if goal - F is a
+    non-negative constant. (One fact at a time: enough for index guards, and never unsound.)"""
+    from .terms import linear, mk, const
+    ga, gc = linear(goal)
+    g = {r: v[1] for r, v in ga.items()}
+    if not g and gc >= 0:
+        return True
+    forms = []
+    for c, tr in facts:
+        if not (c[0] == "op" and len(c[2]) == 2):
+            continue
+        a, b = c[2]
+        o = c[1]
+        if o in ("Gt", "Ge"):
+            a, b, o = b, a, {"Gt": "Lt", "Ge": "Le"}[o]
+        if o == "Lt":
+            forms.append(mk("Sub", mk("Sub", b, a), const(1)) if tr else mk("Sub", a, b))
+        elif o == "Le":
+            forms.append(mk("Sub", b, a) if tr else mk("Sub", mk("Sub", a, b), const(1)))
+        elif o in ("Ne", "Eq") and unsigned and const(0) in (a, b):
+            x = b if a == const(0) else a
+            if (o == "Ne") == bool(tr):
+                forms.append(mk("Sub", x, const(1)))
+        elif o == "Eq" and tr:
+            forms.append(mk("Sub", a, b))
+            forms.append(mk("Sub", b, a))
+    for f in forms:
+        fa, fc = linear(f)
+        fd = {r: v[1] for r, v in fa.items()}
+        if fd == g and gc - fc >= 0:
+            return True
+    return False
+
+
+def discharged_by_facts(fn, prog, bi, tb):
+    """A may-panic site whose failure condition is refuted by one dominating branch fact (index < len, no overflow of x + 1 under
+    x < T, x - c with x >= c, unwrap() of an Option just tested with is_some()). Returns a short reason or None."""
+    from .terms import mk, const
+    blk = fn.blocks[bi]
+    t = blk.term
+    facts = atomic_facts(fn, prog, bi, tb)
+    if t.k == "assert" and t.cond is not None and t.cond.place is not None and t.cond.place.is_local():
+        cl = t.cond.place.local
+        kind = t.j["kind"]
+        for si in range(len(blk.stmts) - 1, -1, -1):
+            st = blk.stmts[si]
+            if st.k != "assign" or not st.place.is_local():
+                continue
+            if kind == "BoundsCheck" and st.place.local == cl and st.rv.k == "binop" and st.rv.j["op"] == "Lt":
+                a, b = (tb.operand(o, bi, si) for o in st.rv.ops)
+                if entails_ge0(facts, mk("Sub", mk("Sub", b, a), const(1))):
+                    return "index < len by a dominating test"
+                return None
+            if kind in ("Overflow:Add", "Overflow:Sub") and st.place.local == cl and st.rv.k in ("binop", "checked_binop", "binop_overflow"):
+                break
+        # overflow asserts test field .1 of the checked pair: find the pair's definition
+        if kind in ("Overflow:Add", "Overflow:Sub"):
+            for si in range(len(blk.stmts) - 1, -1, -1):
+                st = blk.stmts[si]
+                if st.k == "assign" and st.place.is_local() and st.place.local == cl and st.rv.k == "binop" and st.rv.j["op"] in ("AddWithOverflow", "SubWithOverflow"):
+                    a, b = (tb.operand(o, bi, si) for o in st.rv.ops)
+                    if st.rv.j["op"] == "SubWithOverflow":
+                        return "x - c with x >= c by a dominating test" if entails_ge0(facts, mk("Sub", a, b)) else None
+                    if b == const(1):
+                        # x + 1 cannot wrap when some fact gives x < T for a usize T
+                        for c, tr in facts:
+                            if c[0] == "op" and len(c[2]) == 2:
+                                o, (l, r) = c[1], c[2]
+                                if (o == "Lt" and tr and l == a) or (o == "Gt" and tr and r == a) or (o == "Le" and not tr and r == a) or (o == "Ge" and not tr and l == a):
+                                    return "x + 1 with x < T by a dominating test"
+                    return None
+    if t.k == "call" and t.callee_name() in ("unwrap", "expect") and t.args:
+        arg = tb.operand(t.args[0], bi, len(blk.stmts))
+        for c, tr in facts:
+            if tr and c[0] == "call" and c[1].endswith("::is_some") and c[2] and c[2][0] == arg:
+                return "unwrap() after is_some()"
+            if tr and c[0] == "op" and c[1] == "Eq" and ("call", "discriminant", (arg,)) in c[2] and const(1) in c[2]:
+                return "unwrap() in the Some arm"
+    return None
